@@ -472,6 +472,18 @@ impl Real {
             .join(";")
     }
 
+    /// what a caller can observe of every open handle without touching the file: `id:len:position:dirty`
+    pub fn handle_views(&self) -> String {
+        self.handles
+            .iter()
+            .map(|(id, s)| {
+                let (_slot, total, off, pos, _cap, _dl, _max, dirty) = s.verif_state();
+                format!("{}:{}:{}:{}", id, total, off + pos as u64, dirty as u8)
+            })
+            .collect::<Vec<_>>()
+            .join(";")
+    }
+
     /// Directory table as the library holds it in memory (hook H3), allocated slots only:
     /// `slot:name:type:color:left:right:child:len:bits:clsid:ctime:mtime` joined by `;`
     pub fn dirtable(&self) -> String {
